@@ -135,9 +135,12 @@ type WebSocketOption func(*webSocketClient)
 // if passed a request that attempts one.
 func NewClientUsingWebSocket(endpoint string, wsDialer Dialer, opts ...WebSocketOption) WebSocketClient {
 	client := &webSocketClient{
-		Dialer:        wsDialer,
-		header:        http.Header{},
-		errChan:       make(chan error),
+		Dialer: wsDialer,
+		header: http.Header{},
+		// The listener reports at most one error before it stops; capacity 1
+		// lets it do so without blocking (while holding the client's mutex)
+		// when nobody is receiving, which used to make Close hang.
+		errChan:       make(chan error, 1),
 		endpoint:      endpoint,
 		subscriptions: subscriptionMap{map_: make(map[string]subscription)},
 	}
